@@ -29,7 +29,7 @@ def program_budget(ctx):
 def zero_extras(ro, mo):
     """blocks the real result holds in addition to the model's, provided they are all zero (which zero blocks a
     contraction creates depends on tensordot_policy and is not an observable of the property); else None"""
-    if ro.get("kind") != "tensor" or "blocks" not in mo:
+    if ro.get("kind") != "tensor" or ro.get("opaque") or "blocks" not in mo:
         return None
     km = {tuple(map(tuple, b["t"])) for b in mo["blocks"]}
     extra = [b for b in ro["blocks"] if tuple(map(tuple, b["t"])) not in km]
@@ -141,6 +141,8 @@ def run_one(ctx, gen_kwargs, depth, check_access=True, tag="c01"):
                 ctx.fail("correspondence", f"{tag}:accept:{st.opname}",
                          f"step {k} ({st.opname}): model rejects ({mv.get('err')}) but the real code computes a result",
                          case={"program": case_id, "step": k})
+                continue
+            if ro.get("opaque") or ro["kind"] == "other":
                 continue
             if ro["kind"] == "num":
                 if mo.get("num") != ro["num"]:
